@@ -54,6 +54,20 @@ class LogixScenario:
         if open_driver:
             self.opened = self.b.call("open", self.drv.open)
 
+    def use_second_driver(self):
+        """The documented way to put several drivers on one PLC (docs/getting_started.rst): a second LogixDriver with
+        init_tags=False that is handed the first driver's tag list.  Its open() uploads nothing, so its first connected request
+        (and with it the Forward Open, incl. the fallback after a refused Large Forward Open) is the caller's own read / write.
+        The scenario continues on the second driver; the first one stays open (two sessions on the target)."""
+        import pycomm3
+        d2 = pycomm3.LogixDriver(self.path, init_tags=False)
+        d2._tags = self.drv.tags
+        st = self.b.call("open", d2.open)
+        if st[0] == "ok" and st[1]:
+            self.first_drv, self.drv = self.drv, d2
+            return True
+        return False
+
     @property
     def conn_size(self):
         return 4000 if self.large else 500
